@@ -7,47 +7,6 @@ import FGVerif.Proofs.C13Edges
 namespace C13
 open Graph
 
-theorem insertAsc_perm (x : Int) (l : List Int) : (insertAsc x l).Perm (x :: l) := by
-  induction l with
-  | nil => exact List.Perm.refl _
-  | cons y ys ih =>
-    unfold insertAsc
-    split
-    · exact List.Perm.refl _
-    · exact (List.Perm.cons y ih).trans (List.Perm.swap x y ys)
-
-theorem sortAsc_perm (l : List Int) : (sortAsc l).Perm l := by
-  induction l with
-  | nil => exact List.Perm.refl _
-  | cons x l ih => exact (insertAsc_perm x (sortAsc l)).trans (List.Perm.cons x ih)
-
-theorem insertAsc_sorted (x : Int) (l : List Int) (h : l.Pairwise (· ≤ ·)) : (insertAsc x l).Pairwise (· ≤ ·) := by
-  induction l with
-  | nil => simp [insertAsc]
-  | cons y ys ih =>
-    rw [List.pairwise_cons] at h
-    unfold insertAsc
-    split
-    · rename_i hxy
-      rw [List.pairwise_cons]
-      refine ⟨?_, List.pairwise_cons.mpr h⟩
-      intro z hz
-      rcases List.mem_cons.mp hz with rfl | hz
-      · exact hxy
-      · exact Int.le_trans hxy (h.1 z hz)
-    · rename_i hxy
-      rw [List.pairwise_cons]
-      refine ⟨?_, ih h.2⟩
-      intro z hz
-      rcases List.mem_cons.mp ((insertAsc_perm x ys).mem_iff.mp hz) with rfl | hz
-      · omega
-      · exact h.1 z hz
-
-theorem sortAsc_sortedLE (l : List Int) : (sortAsc l).Pairwise (· ≤ ·) := by
-  induction l with
-  | nil => simp [sortAsc]
-  | cons x l ih => exact insertAsc_sorted x _ ih
-
 theorem pairwise_lt_of_le_nodup : ∀ (l : List Int), l.Pairwise (· ≤ ·) → l.Nodup → l.Pairwise (· < ·) := by
   intro l
   induction l with
